@@ -15,6 +15,9 @@ def gen(rng, small=False):
     cbs = {}
     for c in range(1, ncb + 1):
         cbs[c] = dict(cid=c, ret=rng.random() < 0.5)
+        # what the callback actually returns: "if it returns True it keeps being called ..., otherwise never again" — only
+        # True (and what equals it) re-arms; other truthy values do not
+        cbs[c]['retval'] = rng.choice([True, True, True, 1]) if cbs[c]['ret'] else rng.choice([False, False, None, 0, 2, 'again', [1], 0.5])
     # scripts inside timer callbacks (performed at every invocation): remove another timer / add a one-shot
     for c in cbs.values():
         if rng.random() < 0.3:
@@ -35,7 +38,7 @@ def gen(rng, small=False):
             d = rng.choice(PERIODS)
             if c['ret']:
                 minper = min(minper, d)
-            ops.append(dict(t=t, s=0, op='add_timer', cid=c['cid'], delta=d, ret=c['ret'], script=c.get('script')))
+            ops.append(dict(t=t, s=0, op='add_timer', cid=c['cid'], delta=d, ret=c['retval'], script=c.get('script')))
         elif r < 0.75:
             ops.append(dict(t=t, s=0, op='remove_timer', cid=rng.choice(list(cbs))))
         elif r < 0.9:
@@ -62,7 +65,25 @@ def gen(rng, small=False):
     while tt < end:
         inject.append(dict(t=tt, to=0, id=0x18FEF100 + 0x33, data=[tt % 256, 1, 2], via='listener'))
         tt += rng.choice([150000, 333000, 1100000])
-    return dict(stacks=[dict(dll='j1939-21', max_cmdt=1)], jit=[jit], script=ops, inject=inject, horizon=end)
+    sd = dict(dll='j1939-21', max_cmdt=1)
+    if rng.random() < 0.4:
+        # the application registers through a controller application (ControllerApplication.add_timer / remove_timer are the
+        # ECU's): a CA that was never started, or one that was started and stopped again, registers and removes all the same
+        sd['cas'] = [dict(name=5, addr=0x81, bypass=rng.random() < 0.5, subs=[], req=[])]
+        for o in ops:
+            if o['op'] in ('add_timer', 'remove_timer') and rng.random() < 0.7:
+                o['ca'] = 0
+        if rng.random() < 0.4:
+            ops.append(dict(t=300, s=0, op='ca_start', ca=0, delay=0))
+            ops.append(dict(t=rng.choice([600, 2000, t // 2 + 700]), s=0, op='ca_stop', ca=0))
+            ops.sort(key=lambda e: e['t'])
+    sc = dict(stacks=[sd], jit=[jit], script=ops, inject=inject, horizon=end)
+    if rng.random() < 0.25:
+        # pre-emptive schedule: whenever an application call wakes the job thread, the job thread runs BEFORE that call
+        # goes on (the model's handlers are atomic, so these runs are judged by the oracle only)
+        sc['eager_wake'] = True
+        sc['oracle_only'] = True
+    return sc
 
 
 def gen_busy(rng):
